@@ -13,8 +13,12 @@
 (*  ISWAP ISHIFT ICOIN  inverse: swap symmetry, longitude offset, coincident*)
 (*  IMER  IEQ  inverse on a meridian / the equator against the oracles     *)
 (*  ICLOSE inverse then direct with its output arrives at the second point *)
+(*  DGE   direct against the exact geodesic (GeodesicOracle): end point     *)
+(*        within 1 mm, reverse azimuth within 1e-8 deg                     *)
+(*  IGE   inverse: the exact geodesic followed with the returned distance   *)
+(*        and azimuth arrives within 2 mm; reverse azimuth                 *)
 (***************************************************************************)
-EXTENDS Geodesic, Json, IOUtils
+EXTENDS Geodesic, GeodesicOracle, Ellipsoids, Json, IOUtils
 
 Data   == JsonDeserialize(IOEnv.TRACE_FILE)
 Traces == Data.traces
@@ -147,16 +151,47 @@ ICLOSEChecks(o) ==
         <<"c05_closure_reverse_azimuth", ~directConsistent \/ ~arrives \/ Leq(poleDeg, One) \/
                                          Leq(Mul(Mul(DegToRad(excess), poleDeg), MPerDegMin), Mm2)>> >>
 
+(* ------------------- C04 / C05 against the exact geodesic --------------- *)
+\* the ellipsoid is taken from its DEFINING numbers (a, 1/f); for the shipped ones these are the published constants
+EllOK(ell) == ConstantsOK(ell.name, J(ell.a), J(ell.invf))
+Flat(ell) == Recip(J(ell.invf))
+MmSq(n) == Dec(100 * n * n, 2)         \* (n mm)^2 in m^2: n^2 * 1e-6
+ExactClauses(pre, ell, ex, p2, z2, dlon, tolmm, azOK(_)) ==
+  IF ~ex.ok THEN (IF ex.why = "not_applicable" THEN << <<pre \o "_shipped_ellipsoid_constants", EllOK(ell)>> >>
+                  ELSE << <<pre \o "_exact_" \o ex.why, FALSE>> >>)
+  ELSE << <<pre \o "_shipped_ellipsoid_constants", EllOK(ell)>>,
+          <<pre \o "_exact_geodesic_end_point", Leq(MissSquared(J(ell.a), Flat(ell), p2, dlon, ex), MmSq(tolmm))>>,
+          <<pre \o "_exact_geodesic_reverse_azimuth", azOK(AzMiss(z2, ex))>> >>
+\* leaving a POLE the azimuth is meant in the limit along the meridian of lon1: the line is the meridian of longitude
+\* lon1 + 180 - az (north pole) / lon1 + az (south pole), left heading due south / due north
+PoleStart(lat1) == Eq(Abs(lat1), D90)
+AzEff(lat1, az) == IF ~PoleStart(lat1) THEN az ELSE IF lat1.neg THEN Zero ELSE D180
+LonOff(lat1, az) == IF ~PoleStart(lat1) THEN Zero ELSE IF lat1.neg THEN az ELSE Sub(D180, az)
+DGEChecks(o) ==
+  Let(SinCosDeg(J(o.out.lat)), LAMBDA p2 : Let(SinCosDeg(Sub(J(o.out.az), D180)), LAMBDA z2 :
+  Let(GeodesicDirect(Flat(o.ell), SinCosDeg(J(o.lat1)), SinCosDeg(AzEff(J(o.lat1), J(o.az))), SOverB(J(o.s), J(o.ell.a), Flat(o.ell)), p2, z2), LAMBDA ex :
+      ExactClauses("c04", o.ell, ex, p2, z2, Sub(Sub(J(o.out.lon), J(o.lon1)), LonOff(J(o.lat1), J(o.az))), 1,
+                   LAMBDA m : Gt(Abs(J(o.out.lat)), FromInt(89)) \/ (m.same /\ Leq(Abs(m.sin), DegToRad(Az1e8)))))))
+\* reverse azimuth: 1e-8 deg + the angle 2 mm subtends at the distance r from the nearer pole (cross-multiplied with a LOWER
+\* bound of r: a (1 - e^2) * colatitude, so that the tolerance is never smaller than the stated one)
+IGEChecks(o) ==
+  Let(SinCosDeg(J(o.lat2)), LAMBDA p2 : Let(SinCosDeg(Sub(J(o.out.a21), D180)), LAMBDA z2 :
+  Let(Mul(Mul(J(o.ell.a), Sq(Sub(One, Flat(o.ell)))), RadOf(Sub(D90, Abs(J(o.lat2))))), LAMBDA r :
+  Let(GeodesicDirect(Flat(o.ell), SinCosDeg(J(o.lat1)), SinCosDeg(AzEff(J(o.lat1), J(o.out.a12))), SOverB(J(o.out.s), J(o.ell.a), Flat(o.ell)), p2, z2), LAMBDA ex :
+      ExactClauses("c05", o.ell, ex, p2, z2, Sub(Sub(J(o.lon2), J(o.lon1)), LonOff(J(o.lat1), J(o.out.a12))), 2,
+                   LAMBDA m : m.same /\ Leq(Mul(Sub(Abs(m.sin), DegToRad(Az1e8)), r), Mm2))))))
+
 Checks(ev) == CASE ev.k = "DMER" -> DMERChecks(ev.o) [] ev.k = "DEQ" -> DEQChecks(ev.o) [] ev.k = "DFLOW" -> DFLOWChecks(ev.o)
                 [] ev.k = "DREV" -> DREVChecks(ev.o) [] ev.k = "DSYM" -> DSYMChecks(ev.o) [] ev.k = "ISWAP" -> ISWAPChecks(ev.o)
                 [] ev.k = "ISHIFT" -> ISHIFTChecks(ev.o) [] ev.k = "ICOIN" -> ICOINChecks(ev.o) [] ev.k = "IMER" -> IMERChecks(ev.o)
                 [] ev.k = "IEQ" -> IEQChecks(ev.o) [] ev.k = "ICLOSE" -> ICLOSEChecks(ev.o)
                 [] ev.k = "DCL" -> DCLChecks(ev.o) [] ev.k = "ICL" -> ICLChecks(ev.o)
+                [] ev.k = "DGE" -> DGEChecks(ev.o) [] ev.k = "IGE" -> IGEChecks(ev.o)
 
 RECURSIVE ReportAll(_, _)
 ReportAll(cs, i) == IF i > Len(cs) THEN TRUE ELSE (IF cs[i][2] THEN TRUE ELSE Report(cs[i][1])) /\ ReportAll(cs, i + 1)
 
-IsDirect(k) == k \in {"DMER", "DEQ", "DFLOW", "DREV", "DSYM", "DCL"}
+IsDirect(k) == k \in {"DMER", "DEQ", "DFLOW", "DREV", "DSYM", "DCL", "DGE"}
 TraceInit == /\ tid \in 1..Len(Traces) /\ l = 1 /\ dead = FALSE
              /\ kind = (IF IsDirect(Traces[tid].ev[1].k) THEN "direct" ELSE "inverse")
              /\ case = Traces[tid].ev[1].tag /\ legs = 0
